@@ -275,12 +275,12 @@ func c13Where(a, b string) string {
 func init() {
 	core.Register(&core.Check{
 		ID:   "C13",
-		Rule: "cases = known-finding witnesses ++ trees parsed from the shared workload (corpus, hostile inputs incl. trees with errors, generated programs of both families with namespaces/imports, block-crossing concatenations); per tree one PRNG history of 4..16 operations over {print, print in PHP state, print of a subtree, dump x 4 option sets, traverse(null), traverse(recording), resolve names, Accept(null), dump and print into a writer that fails after a few bytes}, for half of the trees with the dump and traverse operations going through the worker's long-lived Dumper / Traverser objects (used for every tree before); after every operation: pointer-level fingerprint + guarded source unchanged, output equal to the fresh-tree output; a race-detector twin (C13R, built with -race) runs two histories concurrently on one tree for 1500 (quick) / 60000 (thorough) trees; non-trivial = tree with >= 3 nodes; distinct by (input, version, history)",
+		Rule: "cases = known-finding witnesses ++ trees parsed from the shared workload (corpus, hostile inputs incl. trees with errors, generated programs of both families with namespaces/imports, block-crossing concatenations); per tree one PRNG history of 4..16 operations over {print, print in PHP state, print of a subtree, dump x 4 option sets, traverse(null), traverse(recording), resolve names, Accept(null), dump and print into a writer that fails after a few bytes}, for half of the trees with the dump and traverse operations going through the worker's long-lived Dumper / Traverser objects (used for every tree before); after every operation: pointer-level fingerprint + guarded source unchanged, output equal to the fresh-tree output; a race-detector twin (C13R, built with -race) runs two histories concurrently on one tree for 1500 (quick) / 30000 (thorough) trees; non-trivial = tree with >= 3 nodes; distinct by (input, version, history)",
 		Assumptions: []string{
 			"the pointer-level fingerprint covers every exported field reachable by reflection, including node/token/position addresses, slice lengths, capacities and data pointers, and the bytes of every value",
 			"resolver output is compared as the sorted list kind@span=name (node addresses differ between two parses)",
 		},
-		Plan:  func(p core.Params) int { return p.Pick(16000, 1000000) },
+		Plan:  func(p core.Params) int { return p.Pick(16000, 400000) },
 		Twins: []string{"C13R"},
 		Run: func(c *core.Ctx, idx int) {
 			r := core.NewRand(c.P.Seed, "C13", idx)
@@ -299,7 +299,7 @@ func init() {
 		ID:     "C13R",
 		Hidden: true,
 		Rule:   "race-detector twin of C13: two goroutines run PRNG histories of passive operations on the same tree",
-		Plan:   func(p core.Params) int { return p.Pick(1500, 60000) },
+		Plan:   func(p core.Params) int { return p.Pick(1500, 30000) },
 		Race:   func(p core.Params) bool { return true },
 		Run: func(c *core.Ctx, idx int) {
 			r := core.NewRand(c.P.Seed, "C13R", idx)
